@@ -125,3 +125,71 @@ Theorem C11b_stump_add_update_data_term :
        ud_to_destroy (spec_update_data term_ops s dels adds)).
 Proof. exact stump_add_update_data_term. Qed.
 Print Assumptions C11b_stump_add_update_data_term.
+
+(** ** The deletion side and the whole record (Proofs/StumpDelData.v) *)
+From Utreexo Require Import Spec.Oracle Proofs.CalcSound Proofs.StumpDelData.
+
+(** "sorted by position, every pre-block node on a path from a deleted target to its root (targets
+    and roots included) with its pre-block position and the hash its subtree has once the deletions
+    are applied": the intermediate list of the mirror of [Stump.del] IS [new_del] *)
+Theorem C11_del_data :
+  forall (H : Type) (HO : ops H) (s : slots H) (hs : list H) (ts : list N) (pf : list H),
+    ops_ok HO ->
+    (forall a b, NZ HO (op_hash2 HO a b)) ->
+    (forall h, In (Some h) s -> NZ HO h) ->
+    NoDup (live s) ->
+    N.of_nat (length s) <= 2 ^ 63 ->
+    NoDup hs ->
+    exp_prove HO (mk_ctx HO s) hs = Some (ts, pf) ->
+    stump_del HO true (the_stump (mk_ctx HO s)) hs ts pf =
+    (mkStump (roots HO (kill HO hs s)) (num_leaves s), Ok (new_del HO s hs)).
+Proof. exact @stump_del_data. Qed.
+Print Assumptions C11_del_data.
+
+(** the full statement of C11 for the mirror of [Stump.Update]: every field of the update data of a
+    valid block equals the specification, and the new state is the reference state *)
+Theorem C11_update_data :
+  forall (H : Type) (HO : ops H) (filler : H) (s : slots H) (hs adds : list H) (ts : list N)
+         (pf : list H) (st' : stump H) (ud : UpdateData H),
+    ops_ok HO ->
+    (forall a b, NZ HO (op_hash2 HO a b)) ->
+    NZ HO filler ->
+    (forall h, In (Some h) s -> NZ HO h) ->
+    (forall h, In h adds -> NZ HO h) ->
+    NoDup (live s) ->
+    N.of_nat (length s + length adds) <= 2 ^ 63 ->
+    NoDup hs ->
+    exp_prove HO (mk_ctx HO s) hs = Some (ts, pf) ->
+    (forall a, In a adds -> ~ In (Some a) (kill HO hs s)) ->
+    NoDup (map snd (ud_new_add (spec_update_data HO s hs adds))) ->
+    stump_update HO true filler (the_stump (mk_ctx HO s)) hs adds ts pf = (st', Ok ud) ->
+    let D := spec_update_data HO s hs adds in
+    u_to_destroy ud = ud_to_destroy D /\
+    u_prev ud = ud_prev_num_leaves D /\
+    u_del ud = ud_new_del D /\
+    u_add ud = ud_new_add D /\
+    st_roots st' = roots HO (apply_block HO s hs adds) /\
+    st_n st' = num_leaves (apply_block HO s hs adds).
+Proof. exact @stump_update_data_fields. Qed.
+Print Assumptions C11_update_data.
+
+(** existence: the valid block is accepted and returns exactly that record *)
+Theorem C11_update_data_accepted :
+  forall (H : Type) (HO : ops H) (filler : H) (s : slots H) (hs adds : list H) (ts : list N)
+         (pf : list H),
+    ops_ok HO ->
+    (forall a b, NZ HO (op_hash2 HO a b)) ->
+    NZ HO filler ->
+    (forall h, In (Some h) s -> NZ HO h) ->
+    (forall h, In h adds -> NZ HO h) ->
+    NoDup (live s) ->
+    N.of_nat (length s + length adds) <= 2 ^ 63 ->
+    NoDup hs ->
+    exp_prove HO (mk_ctx HO s) hs = Some (ts, pf) ->
+    (forall a, In a adds -> ~ In (Some a) (kill HO hs s)) ->
+    NoDup (map snd (ud_new_add (spec_update_data HO s hs adds))) ->
+    stump_update HO true filler (the_stump (mk_ctx HO s)) hs adds ts pf =
+    (mkStump (roots HO (apply_block HO s hs adds)) (num_leaves (apply_block HO s hs adds)),
+     Ok (ud_of_spec (spec_update_data HO s hs adds))).
+Proof. exact @stump_update_data. Qed.
+Print Assumptions C11_update_data_accepted.
